@@ -61,6 +61,7 @@ class Case:
     def __init__(self, spec):
         self.spec = spec
         self.sig = sig_of(spec["fn"], {k: v for k, v in spec.items() if k != "fn"}, None)
+        self.tol = 1e-12 if spec.get("dtype") == "float64" and "const" in spec else None
 
     def run(self, env):
         from synapgrad.nn import init
@@ -123,6 +124,11 @@ class Case:
             std = env.scalar("std", lo=0.1, hi=3, kind="data")
             r = init.normal_(t, as_arg(mean), as_arg(std))
             kind, mean_doc, std_doc = "z", mean, std
+        elif fn == "constant_" and "const" in sp:
+            # a concrete Python number that no float type represents exactly: the tensor holds it rounded to its *own* dtype
+            # (double precision for a float64 tensor - not routed through float32)
+            r = init.constant_(t, sp["const"])
+            out.pair("every element is the value rounded to the tensor's dtype", t.data, _full(shape, float(dt.type(sp["const"])), env))
         elif fn == "constant_":
             val = env.scalar("val", lo=-3, hi=3, kind="data")
             r = init.constant_(t, as_arg(val))
@@ -235,6 +241,9 @@ def enumerate_specs(tier):
         specs.append({"fn": fn, "shape": [2, 3], "defaults": True})
         specs.append({"fn": fn, "shape": [2, 1, 2], "defaults": True})
     specs.append({"fn": "calculate_gain"})
+    for dt in ("float32", "float64"):
+        for c in (0.1, 1.0 / 3):
+            specs.append({"fn": "constant_", "shape": [2], "dtype": dt, "req": dt == "float32", "const": c})
     for fn in ("uniform_", "normal_", "constant_"):
         specs.append({"fn": fn, "shape": [2, 2], "dtype": "float32", "req": True, "npargs": True})
     for fn in ("xavier_uniform_", "xavier_normal_"):
